@@ -713,7 +713,7 @@ func c03HistoryJob(tier string) *SeqJob {
 	job.Run = func(ctx *SeqCtx) {
 		bfs(ctx, alphabet, depth, exec(true))
 		if ctx.viol == nil {
-			ctx.seen = map[string]struct{}{}
+			ctx.ResetSeen()
 			bfs(ctx, alphabet, depth, exec(false))
 		}
 	}
